@@ -15,7 +15,7 @@
    nuclear_is_sum   linearity in the charges, factor -q. *)
 From Coq Require Import List Arith Lia Bool Field.
 From GB Require Import Base.Field Base.FNum Base.Tables Gauss.Moment1D Gauss.SPoly
-  Model.Shell Model.MomentInt Model.OneElec.
+  Model.Shell Model.MomentInt Model.OneElec Model.OneBody.
 Import ListNotations.
 
 (* ------------------------------------------------------------------ *)
@@ -825,6 +825,242 @@ Proof.
   rewrite <- H3_of_Phi. apply H3_ext_local. intros x y z Hx Hy Hz.
   rewrite vrr_prim_is_cube by exact Hapx. cbv zeta.
   apply vrr_cube_entry. lia.
+Qed.
+
+
+(* ------------------------------------------------------------------ *)
+(* 6. uniqueness of the polynomial representative                      *)
+(* ------------------------------------------------------------------ *)
+Definition allz (l : list F) : Prop := Forall (fun c => c = 0) l.
+
+Lemma Phi_allz beta l : allz l -> forall m, Phi beta m l = 0.
+Proof. induction 1 as [|c l Hc Hl IH]; intros m; cbn [SPoly.Phi]; [reflexivity|].
+  rewrite Hc, IH. ring. Qed.
+
+Lemma mul_zero_r a b : a <> 0 -> a * b = 0 -> b = 0.
+Proof. intros Ha H. assert (E : b = (a * b) / a) by (field; exact Ha). rewrite E, H. field. exact Ha. Qed.
+
+(* Horner scheme for the division by (s - r): [hq r l] = remainder :: quotient *)
+Fixpoint hq (r : F) (l : list F) : list F :=
+  match l with [] => [] | c :: l' => (c + r * hd 0 (hq r l')) :: hq r l' end.
+
+Lemma hq_length r l : length (hq r l) = length l.
+Proof. induction l as [|c l IH]; cbn [hq length]; [reflexivity|]. now rewrite IH. Qed.
+Lemma hq_hd r l : hd 0 (hq r l) = peval l r.
+Proof. induction l as [|c l IH]; cbn [hq hd SPoly.peval]; [reflexivity|]. now rewrite IH. Qed.
+Lemma peval_hd_tl l s : peval l s = hd 0 l + s * peval (tl l) s.
+Proof. destruct l; cbn [hd tl SPoly.peval]; [ring|reflexivity]. Qed.
+Lemma hq_factor r l s : peval l s = hd 0 (hq r l) + (s - r) * peval (tl (hq r l)) s.
+Proof.
+  induction l as [|c l IH]; cbn [hq hd tl SPoly.peval]; [ring|].
+  rewrite (peval_hd_tl (hq r l) s). rewrite IH. ring.
+Qed.
+Lemma allz_hd l : allz l -> hd 0 l = 0.
+Proof. destruct 1; [reflexivity|assumption]. Qed.
+Lemma hq_allz r l : allz (hq r l) -> allz l.
+Proof.
+  induction l as [|c l IH]; intros H; [constructor|].
+  cbn [hq] in H. inversion H as [|x y Hx Hy]; subst.
+  constructor; [|now apply IH].
+  rewrite (allz_hd _ Hy) in Hx. rewrite <- Hx. ring.
+Qed.
+
+(* a coefficient list with as many distinct roots as coefficients is zero *)
+Lemma roots_allz : forall n l rs, length l = n -> length rs = n -> NoDup rs ->
+  (forall r, In r rs -> peval l r = 0) -> allz l.
+Proof.
+  induction n as [|n IH]; intros l rs Hl Hr Hnd Hroot.
+  - destruct l; [constructor|discriminate].
+  - destruct rs as [|r rs]; [discriminate|].
+    apply (hq_allz r). pose proof (hq_length r l) as Hlen. pose proof (hq_hd r l) as Hhd.
+    destruct (hq r l) as [|h q] eqn:E; [constructor|].
+    cbn [hd] in Hhd. cbn [length] in Hlen.
+    apply NoDup_cons_iff in Hnd. destruct Hnd as [Hnotin Hnd'].
+    constructor.
+    + rewrite Hhd. apply Hroot. now left.
+    + apply (IH q rs); [lia|cbn [length] in Hr; lia|exact Hnd'|].
+      intros r' Hin. pose proof (hq_factor r l r') as Hf. rewrite E in Hf. cbn [hd tl] in Hf.
+      rewrite (Hroot r') in Hf by now right. rewrite Hhd, (Hroot r) in Hf by now left.
+      apply (mul_zero_r (r' - r)).
+      * intros Hz. apply Hnotin. assert (r' = r) by (rewrite <- (Radd_0_l (F_R Kf) r), <- Hz; ring).
+        now subst.
+      * transitivity (0 + (r' - r) * peval q r'); [ring|now symmetry].
+Qed.
+
+Section Char0.
+Hypothesis char0 : forall n, #(S n) <> 0.
+
+Lemma ofnat_add i d : #(i + d) = #i + #d.
+Proof. induction i as [|i IH]; cbn [Nat.add ofnat]; [ring|]. rewrite IH. ring. Qed.
+Lemma ofnat_inj_lt i j : i < j -> #i <> #j.
+Proof. intros Hlt E. replace j with (i + S (j - i - 1))%nat in E by lia. rewrite ofnat_add in E.
+  apply (char0 (j - i - 1)). 
+  assert (H : #(S (j - i - 1)) = (#i + #(S (j - i - 1))) - #i) by ring. rewrite H, <- E. ring. Qed.
+Lemma ofnat_inj i j : #i = #j -> i = j.
+Proof. intros E. destruct (Nat.lt_trichotomy i j) as [H|[H|H]]; [|exact H|].
+  - exfalso. now apply (ofnat_inj_lt i j H).
+  - exfalso. now apply (ofnat_inj_lt j i H). Qed.
+
+Lemma NoDup_ofnat_seq n : NoDup (map (ofnat K) (seq 0 n)).
+Proof. apply FinFun.Injective_map_NoDup; [intros i j; apply ofnat_inj|apply seq_NoDup]. Qed.
+
+(* a polynomial function that vanishes at 0, 1, 2, ... has only zero coefficients *)
+Theorem poly_zero l : (forall k : nat, peval l #k = 0) -> allz l.
+Proof.
+  intros H. apply (roots_allz (length l) l (map (ofnat K) (seq 0 (length l)))).
+  - reflexivity.
+  - now rewrite map_length, seq_length.
+  - apply NoDup_ofnat_seq.
+  - intros r Hin. apply in_map_iff in Hin. destruct Hin as [k [<- _]]. apply H.
+Qed.
+
+(* two coefficient lists with the same values give the same Phi_m for every beta: the number
+   Phi_m (P) depends on the polynomial FUNCTION only *)
+Theorem Phi_unique P Q : (forall s, peval P s = peval Q s) ->
+  forall beta m, Phi beta m P = Phi beta m Q.
+Proof.
+  intros H beta m.
+  assert (Hz : allz (SPoly.psub K P Q)).
+  { apply poly_zero. intros k. unfold SPoly.psub.
+    rewrite (peval_padd K Kf), (peval_pscale K Kf), H. ring. }
+  pose proof (Phi_allz beta _ Hz m) as E. unfold SPoly.psub in E.
+  rewrite (Phi_padd K Kf), (Phi_pscale K Kf) in E.
+  rewrite <- (Radd_0_l (F_R Kf) (Phi beta m Q)), <- E. ring.
+Qed.
+
+(* ------------------------------------------------------------------ *)
+(* 7. the L_a < L_b swap                                               *)
+(* ------------------------------------------------------------------ *)
+Lemma boys_seq_swap Ax Ay Az Bx By Bz Cx Cy Cz alpha beta m :
+  boys_seq Ax Ay Az Bx By Bz Cx Cy Cz alpha beta m = boys_seq Bx By Bz Ax Ay Az Cx Cy Cz beta alpha m.
+Proof.
+  unfold boys_seq. cbv zeta.
+  replace (beta + alpha) with (alpha + beta) by ring.
+  replace (beta * Bx + alpha * Ax) with (alpha * Ax + beta * Bx) by ring.
+  replace (beta * By + alpha * Ay) with (alpha * Ay + beta * By) by ring.
+  replace (beta * Bz + alpha * Az) with (alpha * Az + beta * Bz) by ring.
+  replace (beta * alpha) with (alpha * beta) by ring.
+  replace ((Bx - Ax) * (Bx - Ax) + (By - Ay) * (By - Ay) + (Bz - Az) * (Bz - Az))
+    with ((Ax - Bx) * (Ax - Bx) + (Ay - By) * (Ay - By) + (Az - Bz) * (Az - Bz)) by ring.
+  reflexivity.
+Qed.
+
+(* spec level, per s: exchanging (a, A, alpha) with (b, B, beta) leaves the integrand unchanged *)
+Theorem prim_poly_swap_eval Cx Cy Cz Ax Ay Az Bx By Bz alpha beta ca cb s :
+  peval (prim_poly Cx Cy Cz Ax Ay Az Bx By Bz alpha beta ca cb) s
+  = peval (prim_poly Cx Cy Cz Bx By Bz Ax Ay Az beta alpha cb ca) s.
+Proof.
+  rewrite !prim_poly_eval. cbv zeta.
+  replace (beta + alpha) with (alpha + beta) by ring.
+  replace (beta * Bx + alpha * Ax) with (alpha * Ax + beta * Bx) by ring.
+  replace (beta * By + alpha * Ay) with (alpha * Ay + beta * By) by ring.
+  replace (beta * Bz + alpha * Az) with (alpha * Az + beta * Bz) by ring.
+  f_equal; [f_equal|]; apply (S3_swap K Kf).
+Qed.
+
+Theorem prim_val_swap Cx Cy Cz Ax Ay Az Bx By Bz alpha beta ca cb :
+  prim_val Cx Cy Cz Ax Ay Az Bx By Bz alpha beta ca cb
+  = prim_val Cx Cy Cz Bx By Bz Ax Ay Az beta alpha cb ca.
+Proof.
+  unfold prim_val.
+  rewrite (Phi_unique _ _ (prim_poly_swap_eval Cx Cy Cz Ax Ay Az Bx By Bz alpha beta ca cb)).
+  apply Phi_ext. intros k. apply boys_seq_swap.
+Qed.
+
+Lemma fsum_map_zero {A} (l : list A) : fsum (map (fun _ => 0) l) = 0.
+Proof. induction l as [|x l IH]; cbn [map FNum.fsum fold_right]; [reflexivity|].
+  fold (fsum (map (fun _ : A => 0) l)). rewrite IH. ring. Qed.
+Lemma fsum_swap {A B} (f : A -> B -> F) (lq : list A) (lr : list B) :
+  fsum (map (fun r => fsum (map (fun q => f q r) lq)) lr)
+  = fsum (map (fun q => fsum (map (fun r => f q r) lr)) lq).
+Proof.
+  induction lr as [|r lr IH].
+  - cbn [map FNum.fsum fold_right]. symmetry. apply fsum_map_zero.
+  - change (fsum (map (fun q => fsum (map (fun r0 => f q r0) (r :: lr))) lq))
+      with (fsum (map (fun q => f q r + fsum (map (fun r0 => f q r0) lr)) lq)).
+    rewrite fsum_map_add, <- IH. reflexivity.
+Qed.
+
+Lemma csum2_swap ea eb ma mb G :
+  csum2 ea eb ma mb G = csum2 eb ea mb ma (fun b a => G a b).
+Proof.
+  unfold csum2.
+  rewrite (map_ext _ (fun r : F * (F * list F) => fsum (map (fun q : F * (F * list F) =>
+      (fst (snd r) * nth mb (snd (snd r)) 0)
+      * (G (fst q) (fst r) * fst (snd q) * nth ma (snd (snd q)) 0)) ea)))
+    by (intros r; rewrite fsum_map_scale; ring).
+  rewrite fsum_swap. f_equal. apply map_ext. intros q.
+  rewrite (map_ext _ (fun r : F * (F * list F) =>
+      (fst (snd q) * nth ma (snd (snd q)) 0)
+      * (G (fst q) (fst r) * fst (snd r) * nth mb (snd (snd r)) 0))) by (intros r; ring).
+  rewrite fsum_map_scale. ring.
+Qed.
+
+(* swap_sound: the specified entry is symmetric under exchanging the two shells *)
+Theorem one_elec_spec_swap Cx Cy Cz sa sb ma ca mb cb :
+  one_elec_spec Cx Cy Cz sa sb ma ca mb cb = one_elec_spec Cx Cy Cz sb sa mb cb ma ca.
+Proof.
+  unfold one_elec_spec. rewrite csum2_swap.
+  rewrite (csum2_ext _ _ _ _ _
+    (fun beta alpha => prim_val Cx Cy Cz (s_x sb) (s_y sb) (s_z sb) (s_x sa) (s_y sa) (s_z sa)
+                         beta alpha cb ca)) by (intros a b; apply prim_val_swap).
+  ring.
+Qed.
+
+Definition csum3 (c : comp) : nat := (fst (fst c) + snd (fst c) + snd c)%nat.
+
+(* PointChargeIntegral.construct_array_contraction, either branch of the swap: every entry is the
+   vector over the charges of  -q * (specified entry for that charge position) *)
+Theorem point_charge_block_entry points (sa sb : shell F) ma ia mb ib :
+  (forall x, fapx K x = x) ->
+  let ca := nth ia (comps_of sa) (0, 0, 0)%nat in
+  let cb := nth ib (comps_of sb) (0, 0, 0)%nat in
+  ma < nseg sa -> ia < length (comps_of sa) -> mb < nseg sb -> ib < length (comps_of sb) ->
+  (csum3 ca <= s_l sa)%nat -> (csum3 cb <= s_l sb)%nat ->
+  nth ib (nth mb (nth ia (nth ma (point_charge_block K points sa sb) []) []) []) []
+  = map (fun pt : F * F * F * F =>
+           (- snd pt) * one_elec_spec (fst (fst (fst pt))) (snd (fst (fst pt))) (snd (fst pt))
+                                       sa sb ma ca mb cb) points.
+Proof.
+  intros Hapx ca cb Hma Hia Hmb Hib Hca Hcb. unfold csum3 in *.
+  unfold point_charge_block. cbv zeta.
+  rewrite nth_mk by exact Hma. rewrite nth_mk by exact Hia.
+  rewrite nth_mk by exact Hmb. rewrite nth_mk by exact Hib.
+  rewrite map_map. apply map_ext. intros [[[cx cy] cz] q]. cbn [fst snd]. f_equal.
+  destruct (Nat.ltb (s_l sa) (s_l sb)).
+  - rewrite (one_elec_entry cx cy cz sb sa mb ib ma ia Hapx) by (fold ca cb; lia || assumption).
+    fold ca cb. symmetry. apply one_elec_spec_swap.
+  - rewrite (one_elec_entry cx cy cz sa sb ma ia mb ib Hapx) by (fold ca cb; lia || assumption).
+    reflexivity.
+Qed.
+
+(* the transposed block of the same quantity: the swapped computation and the direct one agree *)
+Corollary swap_sound Cx Cy Cz (sa sb : shell F) ma ia mb ib :
+  (forall x, fapx K x = x) ->
+  let ca := nth ia (comps_of sa) (0, 0, 0)%nat in
+  let cb := nth ib (comps_of sb) (0, 0, 0)%nat in
+  ma < nseg sa -> ia < length (comps_of sa) -> mb < nseg sb -> ib < length (comps_of sb) ->
+  (csum3 ca <= s_l sa)%nat -> (csum3 cb <= s_l sb)%nat ->
+  nth ia (nth ma (nth ib (nth mb (one_elec_point K Cx Cy Cz sb sa) []) []) []) 0
+  = nth ib (nth mb (nth ia (nth ma (one_elec_point K Cx Cy Cz sa sb) []) []) []) 0.
+Proof.
+  intros Hapx ca cb Hma Hia Hmb Hib Hca Hcb. unfold csum3 in *.
+  rewrite (one_elec_entry Cx Cy Cz sb sa mb ib ma ia Hapx) by (fold ca cb; lia || assumption).
+  rewrite (one_elec_entry Cx Cy Cz sa sb ma ia mb ib Hapx) by (fold ca cb; lia || assumption).
+  fold ca cb. symmetry. apply one_elec_spec_swap.
+Qed.
+End Char0.
+
+(* ------------------------------------------------------------------ *)
+(* 8. linearity in the charges                                         *)
+(* ------------------------------------------------------------------ *)
+Theorem nuclear_is_sum points basis T i j :
+  nth j (nth i (nuclear_attraction_integral K points basis T) []) 0
+  = fsum (nth j (nth i (point_charge_integral K points basis T) []) []).
+Proof.
+  unfold nuclear_attraction_integral.
+  change (@nil F) with (map fsum (@nil (list F))) at 1. rewrite map_nth.
+  change 0 with (fsum (@nil F)) at 1. rewrite map_nth. reflexivity.
 Qed.
 
 End P.
